@@ -21,6 +21,8 @@ import (
 	onsact "github.com/Oneledger/protocol/action/ons"
 	"github.com/Oneledger/protocol/chains/ethereum/contract"
 	onsdata "github.com/Oneledger/protocol/data/ons"
+	"github.com/Oneledger/protocol/external_apps/bid/bid_action"
+	"github.com/Oneledger/protocol/external_apps/bid/bid_data"
 
 	"olverif/internal/boxcli"
 	"olverif/internal/gen"
@@ -35,6 +37,10 @@ type c18input struct {
 	trait string
 	bytes []byte
 }
+
+// c18Prelude: input bytes -> blocks of ordinary transactions executed on the fork before the input is sent (the
+// state the input needs in order to get past the first existence checks); inputs of one batch share it.
+var c18Prelude sync.Map
 
 // rawInputs: byte strings that are not (complete) transactions.
 func rawInputs(rng *rand.Rand, sample []byte) []c18input {
@@ -174,6 +180,34 @@ func ethInputs(w *warm, rng *rand.Rand) []c18input {
 		}
 		n++
 		out = append(out, c18input{"ETH_REPORT_FINALITY_MINT.Locker", "nil-locker", txb.Tx(&ethact.ReportFinality{TrackerName: *tracker, Locker: nil, ValidatorAddress: v.ValAddr, VoteIndex: 0, Success: true}, txb.DefaultFee(), fmt.Sprintf("c18-rep-%d", n), gen.ConsAccount(v))})
+	}
+	return out
+}
+
+// bidConversationInputs: a name is created and bid on (two prelude blocks), then its owner and the bidder send
+// correctly signed moves with hostile amounts into the live conversation.
+func bidConversationInputs(w *warm) []c18input {
+	var out []c18input
+	owner, bidder := w.w.Users[2%len(w.w.Users)], w.w.Users[3%len(w.w.Users)]
+	asset := fmt.Sprintf("c18bid%d.ol", w.h)
+	// the prelude blocks get the fork's next two heights
+	deadline := w.w.P.GenesisTime.Unix() + 10*365*24*3600 // far in the future on every chain
+	born := w.h + 2
+	create := txb.Tx(&onsact.DomainCreate{Owner: owner.Addr, Beneficiary: owner.Addr, Name: onsdata.GetNameFromString(asset), BuyingPrice: txb.Amt("OLT", "2000000000000000000000")}, txb.DefaultFee(), fmt.Sprintf("c18-bid-asset-%d", w.h), owner)
+	first := txb.Tx(&bid_action.CreateBid{AssetOwner: owner.Addr, AssetName: asset, AssetType: bid_data.BidAssetOns, Bidder: bidder.Addr, Amount: txb.Amt("OLT", "10000000000000000000"), Deadline: deadline}, txb.DefaultFee(), fmt.Sprintf("c18-bid-first-%d", w.h), bidder)
+	conv := bid_data.NewBidConv(owner.Addr, asset, bid_data.BidAssetOns, bidder.Addr, deadline, born).BidConvId
+	prelude := [][][]byte{{create}, {first}}
+	n := 0
+	for _, cur := range []string{"ETH", "TTC", "BTC", "VT", "XYZ", "", "OLT"} {
+		for _, val := range []string{"20000000000000000000", "0", "-5", "10000000000000000000"} {
+			n++
+			am := action.Amount{Currency: cur, Value: txb.Amt("OLT", val).Value}
+			out = append(out, c18input{"BID_CONTER_OFFER.<live conversation>", fmt.Sprintf("amount=%s %q", val, cur), txb.Tx(&bid_action.CounterOffer{BidConvId: conv, AssetOwner: owner.Addr, Amount: am}, txb.DefaultFee(), fmt.Sprintf("c18-bid-co-%d-%d", w.h, n), owner)})
+			c18Prelude.Store(string(out[len(out)-1].bytes), prelude)
+			n++
+			out = append(out, c18input{"BID_CREATE.<live conversation>", fmt.Sprintf("rebid amount=%s %q", val, cur), txb.Tx(&bid_action.CreateBid{BidConvId: conv, Bidder: bidder.Addr, Amount: am}, txb.DefaultFee(), fmt.Sprintf("c18-bid-re-%d-%d", w.h, n), bidder)})
+			c18Prelude.Store(string(out[len(out)-1].bytes), prelude)
+		}
 	}
 	return out
 }
@@ -367,6 +401,19 @@ func (wm *warm) runBatch(inputs []c18input, doCheck, doDeliver bool) *batchOut {
 		o.exit, o.sig = b.ExitCode, b.Signal
 		return o
 	}
+	if len(inputs) > 0 {
+		var pre [][][]byte
+		if v, ok := c18Prelude.Load(string(inputs[0].bytes)); ok {
+			pre = v.([][][]byte)
+		}
+		for _, blockTxs := range pre {
+			resp, err := b.Block(&proto.Recipe{DtMs: 5000, Txs: blockTxs})
+			if err != nil || resp.Err != "" || resp.ApplyErr != "" {
+				o.err = fmt.Errorf("prelude block failed: %v", err)
+				return o
+			}
+		}
+	}
 	if doCheck {
 		for i, in := range inputs {
 			resp, err := b.Check(in.bytes)
@@ -380,6 +427,13 @@ func (wm *warm) runBatch(inputs []c18input, doCheck, doDeliver bool) *batchOut {
 			if resp.Panicked {
 				o.panick = true
 				return fail("CheckTx", i)
+			}
+			if d := os.Getenv("DEBUG_C18"); d != "" && strings.Contains(in.where, d) {
+				for _, c := range resp.Calls {
+					if c.M == "CheckTx" {
+						fmt.Printf("DEBUG %s %s check=%d %s\n", in.where, in.trait, c.Code, cut(c.Log, 140))
+					}
+				}
 			}
 		}
 	}
@@ -496,6 +550,7 @@ func checkC18(tier string) int {
 		inputs = append(inputs, ethInputs(wm, rng)...)
 		inputs = append(inputs, olvmInputs(wm)...)
 		inputs = append(inputs, signedFeeInputs(wm)...)
+		inputs = append(inputs, bidConversationInputs(wm)...)
 		if wi == 0 || tier == "thorough" {
 			inputs = append(inputs, truncationSweep(wm)...)
 		}
